@@ -43,7 +43,11 @@ int fp2_field_get_qnr() {
 #elif FP_PRIME == 158 || FP_PRIME == 256
 	return 4;
 #elif FP_PRIME == 446 && !defined(FP_QNRES)
-	return 16;
+	/* 16 + u is a quadratic and cubic non-residue for the BN prime only. */
+	if (fp_param_get() == BN_446) {
+		return 16;
+	}
+	return core_get()->qnr2;
 #else
 	return core_get()->qnr2;
 #endif
